@@ -201,7 +201,16 @@ class Ref:
                 i += 1
             while i < len(params):
                 assert is_c(params[i], '#')
+                if i == len(params) - 1:
+                    break                         # the # of #{ : handled with the parameter before it
                 i += 2
+                if i == len(params) - 1 and is_c(params[i], '#'):
+                    # #{ : the parameter runs up to the next opening brace, which stays in the input
+                    arg = []
+                    while not is_c(toks[0], '{'):
+                        arg.append(toks.pop(0))
+                    args.append(arg)
+                    break
                 delim = []
                 while i < len(params) and not is_c(params[i], '#'):
                     delim.append(params[i])
@@ -486,6 +495,12 @@ def prog_misc(e, which):
         return T('\\def\\mya#1{<#1>}\\def\\myb#1#2{\\mya{#2}\\mya{#1}}\\def\\myc#1{\\myb{#1}{') + [P()] + T('}}\\myc{') + [P()] + T('}') + [P()]
     if which == 'hashbrace':
         return T('\\def\\mya#1#{[#1]}\\mya ') + [P(), P()] + T('{') + [P()] + T('}')
+    if which == 'hashbrace2':
+        return T('\\def\\mya#1#2#{[#1|#2]}\\mya ') + [P(), P(), P()] + T('{') + [P()] + T('}\\mya{') + [P(), P()] + T('}') + [P()] + T('{') + [P()] + T('}')
+    if which == 'hashbrace3':
+        return T('\\def\\mya#1.#2#{[#1|#2]}\\mya ') + [P()] + T('.{') + [P()] + T('}\\mya ') + [P(), P()] + T('.') + [P(), C(' '), P()] + T('{') + [P()] + T('}')
+    if which == 'hashbrace0':
+        return T('\\def\\mya#{[') + [P()] + T(']}\\mya{') + [P()] + T('}')
     raise AssertionError(which)
 
 
@@ -530,7 +545,7 @@ def h_misc2(e, which):
 
 
 MISC = ['hashhash', 'hashhash2', 'let-before-redef', 'let-chain', 'let-in-group', 'let-args', 'csname', 'csname-macro', 'expandafter-args', 'expandafter-once',
-        'gdef-groups', 'def-two-groups', 'renewcommand', 'nine', 'call-depth3', 'hashbrace']
+        'gdef-groups', 'def-two-groups', 'renewcommand', 'nine', 'call-depth3', 'hashbrace', 'hashbrace0', 'hashbrace2', 'hashbrace3']
 
 
 def _check(e, toks, label):
